@@ -379,6 +379,19 @@ class C08(L1Prop):
                     spec = "$1"
                 ops += [f"gcv {c} {spec}", f"av {c} {spec} {pl}"]
                 out.append(Case(f"c08-{k}-{ci}", ops))
+        # a storage call that fails while the child is looked up: the answer may be an error, never
+        # not-found or gone for a parent whose child exists (nor found for one that has none)
+        for k in range(sizes(tier, 6, 40)):
+            n = rng.randint(2, 6)
+            ops = ["ensure 1"] + [f"av 1 {('nil' if k % 2 else 'fresh') if i == 0 else 'latest:1'} b:3,{i}" for i in range(n)]
+            for j in range(n):
+                par = "base:1" if j == 0 else f"ver:1:{j - 1}"
+                for kk in (1, 2, 3, 4):
+                    for when in ("before", "after"):
+                        ops += [f"fault {kk}:{when}", f"gcv 1 {par}"]
+            for kk in (1, 2, 3):
+                ops += [f"fault {kk}:before", "gcv 1 latest:1", f"fault {kk}:before", "gcv 1 fresh"]
+            out.append(Case(f"c08-fault-{k}", ops, {"faults": True, "only": "sqlite"}))
         return out
     def relevant(self, i, trace):
         o, ri, rm = trace[i]
@@ -390,6 +403,23 @@ class C08(L1Prop):
         return False
     def oracle(self, case, trace, backend):
         fails = []
+        if case.meta.get("faults"):
+            child, latest = {}, {}
+            for i, (o, ri, rm) in enumerate(trace):
+                op = Op(o)
+                if op.kind == "av" and resp_kind(ri) == "added":
+                    child[(op.c, op.p)] = added_id(ri); latest[op.c] = added_id(ri)
+                if op.kind == "gcv":
+                    g = resp_kind(ri)
+                    if (op.c, op.p) in child:
+                        fv = found_version(ri)
+                        if g in ("notfound", "gone", "noclient") or (fv and fv[0] != child[(op.c, op.p)]):
+                            fails.append(f"op {i}: get_child_version({op.p}) answered {ri} although the child {child[(op.c, op.p)]} exists (storage fault during the lookup)")
+                    elif g == "found":
+                        fails.append(f"op {i}: get_child_version({op.p}) answered {ri} but no child was ever accepted")
+                    elif g == "gone" and latest.get(op.c) == op.p:
+                        fails.append(f"op {i}: get_child_version(latest) answered gone")
+            return fails
         for i in range(len(trace) - 1):
             a, b = Op(trace[i][0]), Op(trace[i + 1][0])
             if a.kind == "gcv" and b.kind == "av" and a.c == b.c and a.p == b.p:
